@@ -57,6 +57,17 @@ CLAIMED.update({
    note="LSan reports storage unreachable at exit; storage still reachable from the driver's state after shutdown is caught only by shutdown's own 'leaked reference' report. Programs in which a Raise stops the program are excluded (the property is about runs followed by shutdown)."),
 })
 
+CLAIMED.update({
+ "C14": dict(engine="E-det", level="exploration", design_ref="DESIGN.md §4 E-det / C14",
+   technique="deterministic simulation: kind updates delivered to the real SymbolKindTable in seeded orders with duplicates (reordering/duplication faults), unify() in both argument orders and groupings, and the real SymbolKindFinder on permuted presentations in worker processes started under different PYTHONHASHSEED; convergence / equality oracles",
+   text="Update level (every run, in process): a drawn multiset of set(phase, name, kind) messages over the eight-kind universe is delivered to a real SymbolKindTable in 2..6 drawn orders with duplicates; where no explored order hits a failing unification the final tables must be identical, and a failure in some orders but not others is itself a violation. unify() is called on drawn pairs (both orders, idempotence, None neutral) and triples (all six orders x both groupings). Program level (every second run, worker subprocesses): a Fortran-subset or kind-adversarial program is presented to the real SymbolKindFinder as written and in 2..4 drawn permutations of statements and phases under hash seed 0 and one drawn seed; outcome class and table contents must be identical.",
+   note="Conflicting message sets (every explored order hits a failing unification) are an ill-kinded program: unification failures are printed and ignored by design, so only 'consistent failure' is required there. The kind universe is finite (64 ordered pairs); the evidence file reports how many distinct pairs/triples this run actually met."),
+ "C15": dict(engine="E-det", level="exploration", design_ref="DESIGN.md §4 E-det / C15",
+   technique="deterministic simulation of process configuration and history: worker subprocesses started with drawn PYTHONHASHSEED, drawn container orders and a drawn history of earlier generator invocations; byte-equality of generated text and interpreter event log against a canonical worker",
+   text="For a seeded builder program (Python generator, interpreter) and a seeded Fortran-subset program (Fortran generator) a canonical worker (PYTHONHASHSEED=0, builder order, no history) and 2..3 workers with drawn hash seeds, drawn statement-list / dependency-set / phase-dict orders and a drawn history of 0..3 earlier invocations in the same process (other programs through fresh generators, a Fortran generator that raises half-way, type constructions advancing the global index-variable counter, interpreter runs) produce Python text, Fortran text and the interpreter's 3-step event log; each must equal the canonical answer byte for byte. Jobs carry only tape slices and integers, so replays re-create every worker exactly.",
+   note="Python text: dag.phases insertion order is kept fixed (the generator emits phases in that order and the property does not list it). User types use explicit index_vars. Interpreter logs are compared only when the reference stepper finds the first three steps well defined."),
+})
+
 NOT_APPLICABLE = {
  "C06": "pure tree->tree function (simplify_ast) quantified over trees x truth assignments: no schedule, history, fault or configuration for a simulator to own; reached only indirectly through C01/C05",
  "C07": "rewriting passes are pure structured-program->structured-program functions run top to bottom; nothing to schedule or inject; reached only indirectly through C03",
